@@ -38,6 +38,12 @@ class Tx(E):
     pass
 
 
+@spec_class(key="k", bootstrap=True)
+class KI:
+    k: str
+    v: int = 0
+
+
 CLASSES = {"E": E, "Sx": Sx, "Tx": Tx}
 ET = {
     "E": {"attrs": ["f", "a", "b", "c", "g"], "compare": {"f": True, "a": True, "b": False, "c": True, "g": True},
@@ -51,6 +57,49 @@ BM1, BM2 = {"t": "bm", "f": "meth1"}, {"t": "bm", "f": "meth2"}
 FVALS = [S.MISSING, S.I(1), BM1, BM2, {"t": "fn", "n": "g1"}, {"t": "cls", "n": "int"}, {"t": "mod", "n": "sys"}]
 AVALS = [S.MISSING, S.I(0), S.I(1)]
 GVALS = [S.NONE, BM1]
+
+
+def KIv(k, v=0):
+    return {"t": "obj", "c": "KI", "a": {"k": S.S(k), "v": S.I(v)}}
+
+
+# collection-valued attributes: the same members in another order (equal for dict / set / KeyedSet, different for list / KeyedList)
+GX = [S.L(S.I(1), S.I(2)), S.L(S.I(2), S.I(1)), S.KL(KIv("a"), KIv("b")), S.KL(KIv("b"), KIv("a")), S.KL(KIv("a"), KIv("b", 1)),
+      S.KS(KIv("a"), KIv("b")), S.KS(KIv("b"), KIv("a")), S.D((S.S("a"), S.I(1)), (S.S("b"), S.I(2))), S.D((S.S("b"), S.I(2)), (S.S("a"), S.I(1))),
+      S.SET(S.I(1), S.I(2)), S.SET(S.I(2), S.I(1)), KIv("a"), KIv("a", 1)]
+
+
+def extra_pool():
+    out = []
+    for cname in CLASSES:
+        for g in GX:
+            attrs = {"f": S.MISSING, "a": S.I(0), "b": S.I(0), "c": S.I(0), "g": g}
+            if cname == "Sx":
+                attrs["d"] = S.I(0)
+            out.append({"c": cname, "a": attrs})
+    return out
+
+
+def build_value(v):
+    from spec_classes.types import KeyedList, KeyedSet
+    t = v["t"]
+    if t == "int":
+        return v["i"]
+    if t == "str":
+        return v["s"]
+    if t == "list":
+        return [build_value(x) for x in v["e"]]
+    if t == "set":
+        return {build_value(x) for x in v["e"]}
+    if t == "dict":
+        return {build_value(e["k"]): build_value(e["v"]) for e in v["e"]}
+    if t == "klist":
+        return KeyedList([build_value(x) for x in v["e"]])
+    if t == "kset":
+        return KeyedSet([build_value(x) for x in v["e"]])
+    if t == "obj":
+        return KI(**{k: build_value(x) for k, x in v["a"].items()})
+    raise ValueError(v)
 
 
 def pool():
@@ -77,6 +126,8 @@ def gamma(x):
             setattr(obj, k, int)
         elif v["t"] == "mod":
             setattr(obj, k, sys)
+        elif v["t"] in ("list", "set", "dict", "klist", "kset", "obj"):
+            setattr(obj, k, build_value(v))
     return obj
 
 
